@@ -65,13 +65,14 @@ const (
 	PoolNilSig      // B3 with a nil signature
 	PoolB3Relabel   // B3's signature bytes with the signer labels re-attributed (one label replaced by a non-signer, or rotated)
 	PoolB3Resplit   // B3's signature bytes split differently between the entries (ECDSA; otherwise like PoolB3Relabel)
+	PoolGenesisSigned // genesis hash, view 0, but carrying B0's (decodable, unrelated) signature: not the genesis certificate
 	PoolSize
 )
 
 // poolValid is the ground truth for the prepared QCs; PoolBlockView the view of the certified block.
 var (
-	poolValid     = [PoolSize]bool{true, true, true, true, false, false, false, false, false, false, false, false, false}
-	PoolBlockView = [PoolSize]uint64{0, 1, 2, 5, 5, 2, 2, 3, 5, 0, 5, 5, 5}
+	poolValid     = [PoolSize]bool{true, true, true, true, false, false, false, false, false, false, false, false, false, false}
+	PoolBlockView = [PoolSize]uint64{0, 1, 2, 5, 5, 2, 2, 3, 5, 0, 5, 5, 5, 0}
 )
 
 // PoolValid reports the ground truth of pool QC i (a signer "repeated q times" is one honest signature when q == 1).
@@ -148,6 +149,7 @@ func GetWorld(scheme string, n int) *World {
 	w.Pool[PoolNilSig] = hotstuff.NewQuorumCert(nil, 5, w.Blocks[3].Hash())
 	w.Pool[PoolB3Relabel] = hotstuff.NewQuorumCert(relabelSig(w, w.Pool[PoolB3].Signature(), false), 5, w.Blocks[3].Hash())
 	w.Pool[PoolB3Resplit] = hotstuff.NewQuorumCert(relabelSig(w, w.Pool[PoolB3].Signature(), true), 5, w.Blocks[3].Hash())
+	w.Pool[PoolGenesisSigned] = hotstuff.NewQuorumCert(w.Pool[PoolB0].Signature(), 0, g.Hash())
 	worlds[key] = w
 	return w
 }
